@@ -1,6 +1,7 @@
 package scheduler
 
 import (
+	"bytes"
 	"os/exec"
 	"sync"
 	"sync/atomic"
@@ -130,7 +131,12 @@ func (s *Scheduler) runStage(stage *Stage) error {
 		return s.Schedule(stage.Pipeline)
 	}
 
-	t := stage.Task
+	// The task may be shared with other stages, other pipelines and direct
+	// runs. Stage overrides must stay with this stage, so the stage runs (and
+	// keeps) a private copy of the task that carries them.
+	t := *stage.Task
+	t.Log.Stdout = bytes.Buffer{}
+	t.Log.Stderr = bytes.Buffer{}
 	if stage.Env != nil {
 		if t.Env == nil {
 			t.Env = stage.Env
@@ -143,11 +149,16 @@ func (s *Scheduler) runStage(stage *Stage) error {
 		if t.Variables == nil {
 			t.Variables = stage.Variables
 		} else {
-			t.Variables = t.Env.Merge(stage.Variables)
+			t.Variables = t.Variables.Merge(stage.Variables)
 		}
 	}
 
-	return s.taskRunner.Run(stage.Task)
+	if stage.Dir != "" {
+		t.Dir = stage.Dir
+	}
+	stage.Task = &t
+
+	return s.taskRunner.Run(&t)
 }
 
 func checkStatus(p *ExecutionGraph, stage *Stage) (ready bool) {
